@@ -6,19 +6,46 @@ From Interval Require Import Tactic.
 From OV.base Require Import Num.
 From OV.gen Require Import Gen_Math Gen_TensorMathFun Gen_TensorMathAD.
 From OV.model Require Import M_C10.
-From OV.proofs Require L_C17 L_C12.
+From OV.proofs Require L_C12.
 Local Open Scope R_scope.
 
-(* ------------------------------------------------------------------ (1) custom_root: restated from C17 *)
+(* ------------------------------------------------------------------ (1) custom_root: tangent solve + scalar implicit function theorem *)
+(* (the same two facts are proved in proofs/L_C17.v; they are re-proved here -- 15 lines -- so that this file does not depend on
+   L_C17's proofs about the regenerated rtsafe kernel, which are legitimately red whenever ScalarRootFind.py is being changed) *)
 Lemma tangent_solve (a y : R) : a <> 0 -> let g := fun t : R => a * t in g (y / g 1) = y.
-Proof. exact (L_C17.tangent_solve a y). Qed.
+Proof. intros H g. unfold g. field. exact H. Qed.
+
+Lemma scalar_ift (F : R -> R -> R) (x : R -> R) (p0 a b dx : R) :
+  locally p0 (fun p => F (x p) p = 0) ->
+  filterdiff (fun xp : R * R => F (fst xp) (snd xp)) (locally (x p0, p0)) (fun h => a * fst h + b * snd h) ->
+  is_derive x p0 dx ->
+  a * dx + b = 0.
+Proof.
+  intros Hz HF Hx.
+  assert (H1 : filterdiff (fun p : R => F (x p) p) (locally p0) (fun h : R => a * (scal h dx) + b * h)).
+  { apply (filterdiff_comp'_2 x (fun p => p) F p0 (fun h => scal h dx) (fun h => h) (fun u v => a * u + b * v)).
+    - exact Hx.
+    - apply filterdiff_id.
+    - exact HF. }
+  assert (H2 : is_derive (fun p : R => F (x p) p) p0 (a * dx + b)).
+  { unfold is_derive. apply filterdiff_ext_lin with (1 := H1). intros h. unfold scal; simpl; unfold mult; simpl. ring. }
+  assert (H3 : is_derive (fun p : R => F (x p) p) p0 0).
+  { apply is_derive_ext_loc with (f := fun _ : R => 0).
+    - revert Hz. apply filter_imp. intros p Hp. symmetry. exact Hp.
+    - apply (is_derive_const (V := R_NormedModule) 0 p0). }
+  apply is_derive_unique in H2. apply is_derive_unique in H3. rewrite H2 in H3. exact H3.
+Qed.
 
 Lemma scalar_ift_with_tangent_solve (F : R -> R -> R) (x : R -> R) (p0 a b dx : R) :
   locally p0 (fun p => F (x p) p = 0) ->
   filterdiff (fun xp : R * R => F (fst xp) (snd xp)) (locally (x p0, p0)) (fun h => a * fst h + b * snd h) ->
   is_derive x p0 dx -> a <> 0 ->
   dx = (- b) / a /\ (fun t : R => a * t) ((- b) / (fun t : R => a * t) 1) = - b.
-Proof. exact (L_C17.ift_with_tangent_solve F x p0 a b dx). Qed.
+Proof.
+  intros H1 H2 H3 Ha. split; [|exact (tangent_solve a (- b) Ha)].
+  pose proof (scalar_ift F x p0 a b dx H1 H2 H3) as E.
+  apply Rmult_eq_reg_l with a; [|exact Ha]. field_simplify; [|exact Ha]. lra.
+Qed.
 
 (* ------------------------------------------------------------------ (2) total derivative / envelope theorem *)
 Lemma total_derivative (phi : R -> R -> R) (y : R -> R) (x0 a b dy : R) :
